@@ -5,7 +5,7 @@
    decision function [keep], any capacity >= 0 and batch size >= 0. *)
 From Coq Require Import NArith ZArith List Bool String.
 Import ListNotations.
-From Verif Require Import Lib.Corr Gen.C46 Model.C46 Proofs.C46.
+From Verif Require Import Lib.Corr Gen.C46 Model.C46 Proofs.C46 Proofs.C46_bridge.
 Open Scope Z_scope.
 
 (* The queue never holds more than its capacity. *)
@@ -45,6 +45,40 @@ Proof.
   - eapply popper_enabled; eauto.
 Qed.
 Print Assumptions C46_no_lost_wakeup.
+
+(* Bridge between the transition system and the check.
+   (1) Every run that ends with no popper between its two halves satisfies, on
+       its own final state, the boolean predicate the check evaluates on the
+       implementation's observables. *)
+Theorem C46_trace_pred : forall cap batch tr s,
+  0 <= cap -> 0 <= batch ->
+  run cap batch keep_nonneg init tr = Some s -> mid s = O ->
+  obs_pred cap batch tr (q s, tok s) = true.
+Proof. intros cap batch tr s Hc Hb. apply trace_pred; assumption. Qed.
+Print Assumptions C46_trace_pred.
+
+(* (2) A sequential recording accepted by the correspondence check IS a run of
+       the transition system (pop = take then crit), and then the predicate
+       holds after every prefix of it. *)
+Theorem C46_seq_bridge : forall cap batch ops,
+  0 <= cap -> 0 <= batch ->
+  corr_ok (CSeq cap batch ops) = true ->
+  (exists s, run cap batch keep_nonneg init (trace_of ops) = Some s /\ mid s = O)
+  /\ pred_ok (CSeq cap batch ops) = true.
+Proof.
+  intros cap batch ops Hc Hb H. split; [eapply seq_is_run; eauto | apply seq_bridge; assumption].
+Qed.
+Print Assumptions C46_seq_bridge.
+
+(* (3) A forced interleaving (pushes landing between Pop's token receive and
+       its critical section): if the observation is explained by one of the
+       candidate schedules of the model, the predicate holds for that schedule. *)
+Theorem C46_mid_bridge : forall cap batch pre mids out after,
+  0 <= cap -> 0 <= batch ->
+  corr_ok (CMid cap batch pre mids out after) = true ->
+  pred_ok (CMid cap batch pre mids out after) = true.
+Proof. intros cap batch pre mids out after Hc Hb. apply mid_bridge; assumption. Qed.
+Print Assumptions C46_mid_bridge.
 
 (* Tie T: Pop receives the token before taking the mutex and runs the rest
    under it; Push runs under the mutex and signals last. *)
